@@ -191,6 +191,16 @@ class Pool:
         if m.exists():
             shutil.copy(m, tdir / m.name)
             self.files.append((tdir / m.name, [0, 1, 2]))
+        # a curve recorded with a pause: three segments (approach 0, dwell 1, retract 2), as an afmformats HDF5 file
+        import random as _r
+        import h5py
+        import fitlib
+        tr_ = fitlib.truth_params("hertz_para", _r.Random(seed), cp=0.0)
+        dw = fitlib.synth_curve_dwell("hertz_para", tr_, _r.Random(seed), noise=2e-11, seed=seed)
+        with h5py.File(tdir / "c16_dwell.h5", "w") as h5:
+            dw.export_data(h5, fmt="hdf5")
+        self.files.append((tdir / "c16_dwell.h5", [0]))
+        self.dwell_index = len(self.files) - 1
         # a recorded curve whose approach/retract switch is moved by the segment-discovery step
         m = repo_data / "fmt-jpk-fd_spot3-0192.jpk-force"
         if m.exists():
@@ -221,6 +231,7 @@ class Pool:
                       "N": dict(model_key="hertz_para", range_x=(np.float64(-3e-7), np.float64(1e-7)),
                                 range_type="absolute"),
                       "S": dict(model_key="hertz_para"),
+                      "D": dict(model_key="hertz_para", segment=2),          # third segment of a dwell curve
                       "B": dict(model_key="hertz_cone"),
                       "C": dict(model_key="hertz_para", range_x=(-3e-7, 1e-7), range_type="absolute",
                                 weight_cp=0, method_kws={"ftol": 1e-9}),
@@ -328,6 +339,8 @@ def run(ctx):
                 if s in (0, 1) else None
             if s == 2:
                 plan = [(keys[-1], "S", 4), (keys[0], "S", 6)]
+            if s == 3:
+                plan = [((pool.dwell_index, 0), "D", 8), ((pool.dwell_index, 0), "D", 2.5)]
             for step in range(len(plan) if plan else rng.randint(2, 5)):
                 fi, enum = rng.choice(keys)
                 idd_known = [k for k in stored if stored[k][3] == (fi, enum)]
